@@ -56,10 +56,9 @@ def corpus_cases():
     return out
 
 
-def exhaustive_cases(max_nodes, max_imports=None, batch=(1, 1), rng=None, per_tree_batches=None):
+def exhaustive_cases_iter(max_nodes, max_imports=None, batch=(1, 1), rng=None, per_tree_batches=None):
     """Every WF import relation over every tree shape with <= max_nodes nodes x all shapes x filter
-    kinds x strict batches."""
-    out = []
+    kinds x strict batches (a generator: the thorough scopes have millions of cases)."""
     for nodes in gen.tree_shapes(max_nodes):
         if len(nodes) < 2:
             continue
@@ -68,15 +67,16 @@ def exhaustive_cases(max_nodes, max_imports=None, batch=(1, 1), rng=None, per_tr
         if not batches:
             continue
         kmax = len(pairs) if max_imports is None else min(max_imports, len(pairs))
-        rels = []
         for k in range(0, kmax + 1):
-            rels.extend(itertools.combinations(pairs, k))
-        for imps in rels:
-            for subs, objs in batches:
-                for shape in gen.SHAPES:
-                    for sk, ok in (("N", "N"), ("N", "P"), ("P", "N"), ("P", "P")):
-                        out.append(gen.rule_case(nodes, list(imps), shape, sk, ok, subs, objs))
-    return out
+            for imps in itertools.combinations(pairs, k):
+                for subs, objs in batches:
+                    for shape in gen.SHAPES:
+                        for sk, ok in (("N", "N"), ("N", "P"), ("P", "N"), ("P", "P")):
+                            yield gen.rule_case(nodes, list(imps), shape, sk, ok, subs, objs)
+
+
+def exhaustive_cases(max_nodes, max_imports=None, batch=(1, 1), rng=None, per_tree_batches=None):
+    return list(exhaustive_cases_iter(max_nodes, max_imports, batch, rng, per_tree_batches))
 
 
 def random_cases(rng, n, comps=gen.PLAIN, strict=True, max_nodes=14, max_imports=12, wf=True):
